@@ -30,11 +30,11 @@ from common import fbits, fvec, unfbits
 import dinoutil
 
 CORR_RTOL = 1e-9
-PAIR_TOL = 1e-10       # |<Jv,w> - <v,J^T w>| relative to sum |Jv_i w_i| + sum |v_i (J^T w)_i|   (measured <= 3e-15)
+PAIR_TOL = 1e-12       # |<Jv,w> - <v,J^T w>| relative to sum |Jv_i w_i| + sum |v_i (J^T w)_i|   (measured <= 6e-17)
 FD_RTOL = 2e-6         # |FD - Jv| relative to max|Jv| of the leaf ...
 FD_FLOOR = 1e-8        # ... plus this times max|f| of the leaf (rounding of the difference quotient: eps |f| / h)
 FD_STEP = 1e-5         # relative to the size of the state
-GRAD_TOL = 1e-11       # nested vs flat scan, checkpoint vs none: relative (measured <= 1e-15)
+GRAD_TOL = 1e-11       # nested vs flat scan, checkpoint vs none: relative (measured <= 4e-16)
 RULE = ('correspondence: node sets of 1..8 nodes (uniform, uneven, strongly uneven), queries below / at / between / '
         'beyond the nodes, random data and tangents; 1..8 sigma layers equidistant / uneven / strongly uneven; grids '
         'with_wavenumbers(4..8), both spherical-harmonics implementations; probes: grids M=5..10, 2-4 uneven layers, '
@@ -68,8 +68,8 @@ def undvec(s):
   vs, ds = [], []
   for t in s.split(','):
     if t == 'nan':
-      vs.append(np.nan)
-      ds.append(np.nan)
+      vs.append(np.nan)     # `left=nan` / `right=nan` of jnp.interp: a constant, so the tangent is 0
+      ds.append(0.0)
     else:
       a, b = t.split(':')
       vs.append(unfbits(a))
@@ -162,33 +162,57 @@ def _corr(ctx, E):
   names = dict(interp='vertical_interpolation.interp', dot='vertical_interpolation._dot_interp',
                linext='vertical_interpolation.linear_interp_with_linear_extrap',
                safe='vertical_interpolation._linear_interp_with_safe_extrap')
-  for ci in range(ctx.n(14, 140)):
-    xp, kind = random_nodes(rng, {0: 1, 1: 2, 2: 3}.get(ci))
+  compiled = {}
+
+  def all_jvps(n):
+    """one jitted function per node count: every (op, argument) jvp on the open queries and, for the two routines
+    that pick the cell by searchsorted alone, on the nodes themselves"""
+    if n not in compiled:
+      ops = ['interp'] + (['dot', 'linext', 'safe'] if n >= 2 else [])
+
+      def g(xp, fp, dfp, xs, dxs, xn, dxn):
+        out = {}
+        for op in ops:
+          f = jax.vmap(fns[op], (0, None, None))
+          out[op, 'data', 'open'] = jax.jvp(lambda q: f(xs, xp, q), (fp,), (dfp,))
+          out[op, 'query', 'open'] = jax.jvp(lambda q: f(q, xp, fp), (xs,), (dxs,))
+          if op in ('interp', 'linext'):
+            out[op, 'data', 'nodes'] = jax.jvp(lambda q: f(xn, xp, q), (fp,), (dfp,))
+            out[op, 'query', 'nodes'] = jax.jvp(lambda q: f(q, xp, fp), (xn,), (dxn,))
+        return out
+      compiled[n] = jax.jit(g)
+    return compiled[n]
+
+  sizes = [1, 2, 3, 5] if ctx.quick else [1, 2, 3, 4, 5, 8]
+  for ci in range(ctx.n(12, 140)):
+    xp, kind = random_nodes(rng, {0: 1, 1: 2, 2: 3}.get(ci, int(rng.choice(sizes))))
     n = len(xp)
     fp = rng.standard_normal(n) * 10
     dfp = rng.standard_normal(n)
     ctx.dist[f'interp-nodes={n}'] += 1
     ctx.dist[f'interp-kind={kind}'] += 1
-    for op, fn in fns.items():
-      if op == 'safe' and n < 2:
-        continue
-      if op in ('dot', 'linext') and n < 2:
-        continue      # one node: the weights divide by an empty array (C17 known finding for _dot_interp)
-      # nodes as queries: jnp.interp / linext pick the right cell by searchsorted (same in the model); the `where`s
-      # of _dot_interp at the end nodes are ties
-      xs = random_queries(rng, xp, with_nodes=op in ('interp', 'linext'))
-      if op == 'safe':
-        xs = np.concatenate([xs, [xp[0] - 10 * (xp[1] - xp[0]), xp[-1] + 10 * (xp[-1] - xp[-2])]])
-      dxs = rng.standard_normal(len(xs))
-      inp = dict(op=op, xp=xp.tolist(), fp=fp.tolist(), dfp=dfp.tolist(), x=xs.tolist(), dx=dxs.tolist())
-      J = jnp.asarray
-      with ctx.impl('corr-exception:' + op, inp):
-        f = jax.vmap(fn, (0, None, None))
-        v, t = jax.jvp(lambda q: f(J(xs), J(xp), q), (J(fp),), (J(dfp),))
+    # open queries: beyond both ends (near and far: the far ones are outside the one-cell safe extrapolation) and
+    # strictly inside every cell; node queries: jnp.interp / linext pick the cell to the right by searchsorted (so
+    # does the model); the `where`s of _dot_interp at the end nodes and the nan edges of `safe` are ties
+    xs = random_queries(rng, xp, with_nodes=False)
+    span = (xp[-1] - xp[0]) if n > 1 else 1.0
+    xs = np.concatenate([xs, [xp[0] - 10 * span, xp[-1] + 10 * span]])
+    dxs = rng.standard_normal(len(xs))
+    xn, dxn = xp.copy(), rng.standard_normal(n)
+    inp = dict(xp=xp.tolist(), fp=fp.tolist(), dfp=dfp.tolist())
+    J = jnp.asarray
+    with ctx.impl('corr-exception:interp', inp):
+      res = all_jvps(n)(J(xp), J(fp), J(dfp), J(xs), J(dxs), J(xn), J(dxn))
+      for (op, wrt, where), (v, t) in res.items():
+        q, dq = (xs, dxs) if where == 'open' else (xn, dxn)
         extra = ['1'] if op == 'safe' else []
-        add(' '.join(['interp', op] + extra + [fvec(xp), dvec(fp, dfp), fvec(xs)]), names[op] + '[data]', inp, v, t)
-        v, t = jax.jvp(lambda q: f(q, J(xp), J(fp)), (J(xs),), (J(dxs),))
-        add(' '.join(['interp', op] + extra + [fvec(xp), fvec(fp), dvec(xs, dxs)]), names[op] + '[query]', inp, v, t)
+        i2 = dict(inp, op=op, wrt=wrt, x=q.tolist(), dx=dq.tolist())
+        if wrt == 'data':
+          line = ' '.join(['interp', op] + extra + [fvec(xp), dvec(fp, dfp), fvec(q)])
+        else:
+          line = ' '.join(['interp', op] + extra + [fvec(xp), fvec(fp), dvec(q, dq)])
+        add(line, f'{names[op]}[{wrt}]', i2, v, t)
+        ctx.dist[f'interp-queries={where}'] += 1
 
   # ---- filters ----
   for ci in range(ctx.n(4, 40)):
@@ -225,7 +249,7 @@ def _corr(ctx, E):
           np.concatenate([np.asarray(q) for q in t]), key=(ci, 'ra'))
 
   # ---- sigma column routines, implicit temperature operator, column physics ----
-  for ci in range(ctx.n(10, 100)):
+  for ci in range(ctx.n(6, 100)):
     forced = {0: (1, 'equidistant'), 1: (2, 'strongly-uneven')}.get(ci)
     b, kind = dinoutil.random_boundaries(rng, *(forced or (None, None)))
     n = len(b) - 1
@@ -352,11 +376,437 @@ def _corr(ctx, E):
   return worst
 
 
+
+# --------------------------------------------------------------------------
+# (b) probes on the real code (tests)
+
+
+def _stat(ctx, name, value, key):
+  st = ctx.__dict__.setdefault('c08_stats', {})
+  if name not in st or value > st[name][0]:
+    st[name] = (float(value), key)
+
+
+def _leaves(E, t):
+  return [np.asarray(a, dtype=float) for a in E.jax.tree_util.tree_leaves(t)]
+
+
+def _axpy(E, x, v, h):
+  return E.jax.tree_util.tree_map(lambda a, b: a + h * b, x, v)
+
+
+def _deriv_probe(ctx, E, key, f, x, v, inp, fd=True, kinks=False, nontrivial=True):
+  """finiteness of jvp / vjp, <Jv,w> = <v,J^T w>, central finite difference = Jv, for f at x along v"""
+  jax, jnp, rng = E.jax, E.jnp, ctx.rng
+  ctx.case((key, repr(sorted(inp.items()))[:400], ctx.seed), nontrivial=nontrivial,
+           sample=dict(inp, probe=key) if len(ctx.samples) < 10 else None)
+  ctx.dist['probe:' + key.split(':')[0]] += 1
+  with ctx.impl(key + ':raises', inp):
+    out, jv = jax.jvp(f, (x,), (v,))
+    out2, pull = jax.vjp(f, x)
+    w = jax.tree_util.tree_map(lambda a: jnp.asarray(rng.standard_normal(np.shape(a))), out)
+    (ct,) = pull(w)
+    lo, lj, lw, lv, lc = (_leaves(E, t) for t in (out, jv, w, v, ct))
+    fin = all(np.isfinite(a).all() for a in lo + lj + lc)
+    ctx.expect(fin, key + ':finite', 'non-finite primal / jvp / vjp: ' +
+               ', '.join(f'{nm}[{i}]' for nm, ls in (('out', lo), ('jvp', lj), ('vjp', lc))
+                         for i, a in enumerate(ls) if not np.isfinite(a).all()), inp)
+    if not fin:
+      return None
+    lhs = sum(float(np.vdot(a, b)) for a, b in zip(lj, lw))
+    rhs = sum(float(np.vdot(a, b)) for a, b in zip(lv, lc))
+    scale = sum(float(np.abs(a * b).sum()) for a, b in zip(lj, lw)) + \
+        sum(float(np.abs(a * b).sum()) for a, b in zip(lv, lc))
+    _stat(ctx, 'adjoint', abs(lhs - rhs) / (scale + 1e-300), key)
+    ctx.expect(abs(lhs - rhs) <= PAIR_TOL * scale + 1e-300, key + ':adjoint',
+               f'<Jv,w> = {lhs!r} but <v,J^T w> = {rhs!r} (scale {scale:.3e})', inp)
+    # the two primal evaluations agree (vjp does not change the value)
+    ctx.expect(all(dinoutil.relerr(a, b) <= 1e-12 for a, b in zip(lo, _leaves(E, out2))), key + ':primal',
+               'jax.jvp and jax.vjp return different primal values', inp)
+    if fd:
+      h = FD_STEP
+      fp_, fm_ = _leaves(E, f(_axpy(E, x, v, h))), _leaves(E, f(_axpy(E, x, v, -h)))
+      for i, (a, b, o, t) in enumerate(zip(fp_, fm_, lo, lj)):
+        d = (a - b) / (2 * h)
+        ok_entries = np.ones(d.shape, dtype=bool)
+        if kinks:   # entries whose one-sided difference quotients disagree sit on a kink of a piecewise-smooth routine
+          dp, dm = (a - o) / h, (o - b) / h
+          ok_entries = np.abs(dp - dm) <= 1e-3 * (np.abs(dp).max(initial=0.0) + np.abs(dm).max(initial=0.0)) + 1e-300
+          ctx.dist['probe-fd-kink-entries'] += int((~ok_entries).sum())
+        if not ok_entries.any():
+          continue
+        err = float(np.abs(d - t)[ok_entries].max())
+        tol = FD_RTOL * float(np.abs(t).max(initial=0.0)) + FD_FLOOR * float(np.abs(o).max(initial=0.0)) + 1e-300
+        _stat(ctx, 'finite-difference (error / tolerance)', err / tol, key)
+        ctx.expect(err <= tol, key + ':finite-difference',
+                   f'leaf {i}: central difference (h={h}) differs from jax.jvp by {err:.3e} '
+                   f'(max|Jv| = {np.abs(t).max(initial=0.0):.3e}, max|f| = {np.abs(o).max(initial=0.0):.3e})', inp)
+    return jv
+
+
+def _rm(rng, grid, k, a):
+  ms = grid.modal_shape
+  l = np.arange(ms[1])
+  return rng.standard_normal((k,) + ms) * _keep(grid) * a / (1.0 + l) ** 1.5
+
+
+def _pe_setup(ctx, E, grid, n, cls):
+  rng, jnp, pe = ctx.rng, E.jnp, E.pe
+  b, lk = dinoutil.random_boundaries(rng, n, str(rng.choice(['uneven', 'equidistant', 'refined-bottom']))
+                                     if n > 1 else 'equidistant')
+  coords = E.cs.CoordinateSystem(horizontal=grid, vertical=E.sc.SigmaCoordinates(b))
+  specs = E.specs(rng, grid.radius)
+  tref = np.full(n, 250.0) if rng.random() < 0.3 else np.sort(rng.uniform(200.0, 300.0, n))
+  oro = np.asarray(grid.clip_wavenumbers(grid.to_modal(jnp.asarray(rng.uniform(0, 0.02, grid.nodal_shape)))))
+  eq = E.CL[cls](tref, jnp.asarray(oro), coords, specs)
+  J = jnp.asarray
+
+  def mk(amp=1.0, base=True, t=0.0):
+    """a random state (base=True) or a random tangent of the same structure"""
+    tr = {}
+    if cls in ('moist', 'cloud'):
+      q = _rm(rng, grid, n, 1e-3 * amp)
+      if base:
+        q[:, 0, 0] += 0.03
+      tr[Q_KEY] = J(q)
+    if cls == 'cloud':
+      tr[QL_KEY], tr[QI_KEY] = J(_rm(rng, grid, n, 1e-5 * amp)), J(_rm(rng, grid, n, 1e-5 * amp))
+    tr['x'] = J(_rm(rng, grid, n, amp))
+    d = dict(vorticity=J(_rm(rng, grid, n, 0.3 * amp)), divergence=J(_rm(rng, grid, n, 0.05 * amp)),
+             temperature_variation=J(_rm(rng, grid, n, amp)), log_surface_pressure=J(_rm(rng, grid, 1, 0.01 * amp)),
+             tracers=tr)
+    return pe.State(**d) if cls == 'dry' else pe.StateWithTime(sim_time=J(float(t)), **d)
+
+  info = dict(cls=cls, layers=n, levels=lk, boundaries=b.tolist(), tref=tref.tolist(), R=specs.R, g=specs.g,
+              kappa=specs.kappa, omega=specs.angular_velocity, Rv=specs.R_vapor, CpV=specs.Cp_vapor)
+  return eq, coords, specs, tref, mk, info
+
+
+def _sw_setup(ctx, E, grid, n):
+  rng, jnp = ctx.rng, E.jnp
+  dens = np.sort(rng.uniform(1.0, 2.0, n))
+  specs = E.sw.ShallowWaterSpecs(densities=dens, radius=grid.radius, angular_velocity=float(rng.uniform(0.3, 1.0)),
+                                 gravity_acceleration=float(rng.uniform(0.5, 2.0)), scale=E.scales.DEFAULT_SCALE)
+  coords = E.cs.CoordinateSystem(horizontal=grid, vertical=E.sc.SigmaCoordinates.equidistant(n))
+  ref = rng.uniform(0.5, 2.0, n)
+  oro = np.asarray(grid.clip_wavenumbers(grid.to_modal(jnp.asarray(rng.uniform(0, 0.05, grid.nodal_shape)))))
+  eq = E.sw.ShallowWaterEquations(coords, specs, jnp.asarray(oro), ref)
+  J = jnp.asarray
+
+  def mk(amp=1.0, base=True, t=0.0):
+    return E.sw.State(J(_rm(rng, grid, n, 0.2 * amp)), J(_rm(rng, grid, n, 0.05 * amp)), J(_rm(rng, grid, n, 0.1 * amp)))
+
+  info = dict(cls='shallow-water', layers=n, densities=dens.tolist(), reference_potential=ref.tolist(),
+              omega=specs.angular_velocity)
+  return eq, coords, specs, ref, mk, info
+
+
+def _filters(E, grid, dt, stack, leapfrog, rng):
+  ti = E.ti
+  out, desc = [], []
+  for f in stack:
+    if f == 'exp':
+      tau, order, cutoff = float(rng.uniform(0.02, 0.2)), int(rng.integers(1, 5)), float(rng.choice([0.0, 0.3]))
+      mk = ti.exponential_leapfrog_step_filter if leapfrog else ti.exponential_step_filter
+      out.append(mk(grid, dt, tau, order, cutoff))
+      desc.append(f'exp(tau={tau:.4g},order={order},cutoff={cutoff})')
+    elif f == 'diff':
+      tau, order = float(rng.uniform(0.05, 0.5)), int(rng.integers(1, 3))
+      if leapfrog:
+        eig = grid.laplacian_eigenvalues
+        scale = dt / (tau * np.abs(eig).max() ** order)
+        out.append(ti.leapfrog_step_filter(E.flt.horizontal_diffusion_filter(grid, scale, order)))
+      else:
+        out.append(ti.horizontal_diffusion_step_filter(grid, dt, tau, order))
+      desc.append(f'diff(tau={tau:.4g},order={order})')
+    elif f == 'ra':
+      r = float(rng.uniform(0.01, 0.1))
+      out.append(ti.robert_asselin_leapfrog_filter(r))
+      desc.append(f'ra(r={r:.4g})')
+  return out, '+'.join(desc) or 'none'
+
+
+def _run_grid(ctx, E):
+  """one (grid, layers) per run, so that the eagerly executed primitives are compiled once"""
+  rng = ctx.rng
+  M = [5, 6, 7][ctx.seed % 3] if ctx.quick else int(rng.choice([5, 6, 7, 8, 10]))
+  impl = ['real', 'fast'][(ctx.seed // 3) % 2] if ctx.quick else str(rng.choice(['real', 'fast']))
+  n = [3, 2, 4][ctx.seed % 3] if ctx.quick else int(rng.integers(2, 5))
+  return E.grid(M, impl), f'{impl}-{M}', n
+
+
+def _probes_ops(ctx, E, grid, gname, n):
+  """transforms, tendencies, implicit solve, filters, vertical interpolation, Held-Suarez"""
+  rng, jax, jnp, pe = ctx.rng, E.jax, E.jnp, E.pe
+  J = jnp.asarray
+  ginfo = dict(grid=gname, modal_shape=list(grid.modal_shape), nodal_shape=list(grid.nodal_shape), seed=ctx.seed)
+  # transforms (both implementations in thorough; the run grid in quick)
+  grids = [(grid, gname)] if ctx.quick else [(grid, gname), (E.grid(5, 'fast'), 'fast-5'), (E.grid(8, 'real'), 'real-8')]
+  for g, gn in grids:
+    gi = dict(ginfo, grid=gn)
+    x, v = J(_rm(rng, g, 2, 1.0)), J(_rm(rng, g, 2, 1.0))
+    jv = _deriv_probe(ctx, E, 'to_nodal', g.to_nodal, x, v, gi)
+    if jv is not None:   # linear: the jvp is the operator applied to the tangent
+      ctx.expect(dinoutil.relerr(jv, g.to_nodal(v)) <= 1e-12, 'to_nodal:linear', 'jvp(to_nodal)(v) != to_nodal(v)', gi)
+    z, dz = J(rng.standard_normal((2,) + g.nodal_shape)), J(rng.standard_normal((2,) + g.nodal_shape))
+    jv = _deriv_probe(ctx, E, 'to_modal', g.to_modal, z, dz, gi)
+    if jv is not None:
+      ctx.expect(dinoutil.relerr(jv, g.to_modal(dz)) <= 1e-12, 'to_modal:linear', 'jvp(to_modal)(v) != to_modal(v)', gi)
+    # analysis is the w-adjoint of synthesis (T8.1) on the real Grid: the VJP of to_nodal at the cotangent w * z is
+    # to_modal(z) (on the mask), and sum_ij w_j (S x)_ij z_ij = sum_ml x_ml (A z)_ml
+    quad = np.asarray(g.spherical_harmonics.basis.w)
+    mask = np.asarray(g.mask)
+    with ctx.impl('to_nodal:analysis-is-adjoint:raises', gi):
+      _, pull = jax.vjp(g.to_nodal, x)
+      (ct,) = pull(J(np.asarray(z) * quad))
+      az = np.asarray(g.to_modal(z))
+      ctx.case(('synth-analysis-adjoint', gn, ctx.seed), nontrivial=True)
+      ctx.expect(dinoutil.relerr(np.asarray(ct) * mask, az * mask) <= 1e-12, 'to_nodal:analysis-is-adjoint',
+                 'vjp(to_nodal)(w z) != to_modal(z) on the mask', gi)
+      lhs = float(np.vdot(np.asarray(g.to_nodal(x)) * quad, np.asarray(z)))
+      rhs = float(np.vdot(np.asarray(x), az))
+      ctx.expect(abs(lhs - rhs) <= 1e-12 * (abs(lhs) + abs(rhs)) + 1e-300, 'to_nodal:analysis-is-adjoint',
+                 f'sum w (S x) z = {lhs!r} but sum x (A z) = {rhs!r}', gi)
+  # equation classes: explicit / implicit terms, implicit inverse
+  classes = ['dry', 'moist', 'cloud', 'time'] if not ctx.quick else [['dry', 'moist'], ['moist', 'time'], ['cloud', 'dry']][ctx.seed % 3]
+  for cls in classes:
+    eq, coords, specs, tref, mk, info = _pe_setup(ctx, E, grid, n, cls)
+    info = dict(ginfo, **info)
+    x, v = mk(), mk(base=False)
+    eta = float(rng.choice([0.005, 0.01, 0.02]))
+    _deriv_probe(ctx, E, f'explicit_terms:{cls}', eq.explicit_terms, x, v, info)
+    _deriv_probe(ctx, E, f'implicit_terms:{cls}', eq.implicit_terms, x, v, info)
+    _deriv_probe(ctx, E, f'implicit_inverse:{cls}', lambda s: eq.implicit_inverse(s, eta), x, v, dict(info, eta=eta))
+    # finiteness at the state of rest (zero wind, zero T', flat pressure): no sqrt / division by a vanishing field
+    x0 = jax.tree_util.tree_map(jnp.zeros_like, x)
+    if cls in ('moist', 'cloud'):
+      x0.tracers[Q_KEY] = x.tracers[Q_KEY]
+    _deriv_probe(ctx, E, f'explicit_terms-at-rest:{cls}', eq.explicit_terms, x0, v, info, fd=False)
+  eq, coords, specs, ref, mk, info = _sw_setup(ctx, E, grid, n)
+  info = dict(ginfo, **info)
+  x, v = mk(), mk(base=False)
+  _deriv_probe(ctx, E, 'explicit_terms:shallow-water', eq.explicit_terms, x, v, info)
+  _deriv_probe(ctx, E, 'implicit_terms:shallow-water', eq.implicit_terms, x, v, info)
+  _deriv_probe(ctx, E, 'implicit_inverse:shallow-water', lambda s: eq.implicit_inverse(s, 0.01), x, v, dict(info, eta=0.01))
+  # filters
+  tree = dict(a=J(_rm(rng, grid, n, 1.0)), b=J(_rm(rng, grid, 1, 1.0)), t=J(1.5))
+  dtree = dict(a=J(_rm(rng, grid, n, 1.0)), b=J(_rm(rng, grid, 1, 1.0)), t=J(0.3))
+  a_, p_, c_ = float(rng.uniform(1, 20)), int(rng.integers(1, 6)), float(rng.choice([0.0, 0.3]))
+  _deriv_probe(ctx, E, 'exponential_filter', E.flt.exponential_filter(grid, a_, p_, c_), tree, dtree,
+               dict(ginfo, attenuation=a_, order=p_, cutoff=c_))
+  order = int(rng.choice([1, 2]))
+  scale = float(10 ** rng.uniform(-2, 0) / np.abs(grid.laplacian_eigenvalues).max() ** order)
+  _deriv_probe(ctx, E, 'horizontal_diffusion_filter', E.flt.horizontal_diffusion_filter(grid, scale, order), tree, dtree,
+               dict(ginfo, scale=scale, order=order))
+  # vertical interpolation: sigma -> pressure -> sigma, differentiated with respect to the fields AND the surface
+  # pressure (the queries p / p_s and sigma p_s move with it)
+  b, _ = dinoutil.random_boundaries(rng, max(n, 3), 'uneven')
+  sig = E.sc.SigmaCoordinates(b)
+  ns = grid.nodal_shape
+  sp0 = 1000.0
+  pc = E.vi.PressureCoordinates(np.sort(rng.uniform(0.05, 0.98, 4)) * sp0)
+  sp, dsp = J(sp0 * (1 + 0.03 * rng.standard_normal((1,) + ns))), J(10.0 * rng.standard_normal((1,) + ns))
+  for iname, ifn in (('constant-extrapolation', E.vi.vertical_interpolation),
+                     ('linear-extrapolation', E.vi.linear_interp_with_linear_extrap)):
+    vfn = E.vi.vectorize_vertical_interpolation(ifn)
+    fs, dfs = J(rng.standard_normal((sig.layers,) + ns)), J(rng.standard_normal((sig.layers,) + ns))
+    info = dict(ginfo, interpolate_fn=iname, sigma_boundaries=b.tolist(), pressure_centers=pc.centers.tolist())
+    _deriv_probe(ctx, E, f'interp_sigma_to_pressure:{iname}',
+                 lambda a: E.vi.interp_sigma_to_pressure(a[0], pc, sig, a[1], vfn), (fs, sp), (dfs, dsp), info,
+                 kinks=True)
+    fp_, dfp_ = J(rng.standard_normal((4,) + ns)), J(rng.standard_normal((4,) + ns))
+    _deriv_probe(ctx, E, f'interp_pressure_to_sigma:{iname}',
+                 lambda a: E.vi.interp_pressure_to_sigma(a[0], pc, sig, a[1], vfn), (fp_, sp), (dfp_, dsp), info,
+                 kinks=True)
+  # semi-Lagrangian vertical advection: the interpolation nodes depend on the state
+  eq, coords, specs, tref, mk, info = _pe_setup(ctx, E, grid, max(n, 3), 'dry')
+  x, v = mk(), mk(base=False)
+  dts = float(rng.choice([0.05, 0.2]))
+  _deriv_probe(ctx, E, 'semi_lagrangian_vertical_advection_step',
+               lambda s: pe.semi_lagrangian_vertical_advection_step(s, coords, dts), x, v, dict(ginfo, dt=dts, **info),
+               kinks=True)
+  # Held-Suarez forcing
+  units = E.scales.units
+  specs_si = pe.PrimitiveEquationsSpecs.from_si()
+  b, lk = dinoutil.random_boundaries(rng, max(n, 3), 'uneven')
+  coords = E.cs.CoordinateSystem(horizontal=grid, vertical=E.sc.SigmaCoordinates(b))
+  nl = coords.vertical.layers
+  tref = rng.uniform(220, 300, nl)
+  kw = {} if ctx.seed % 2 == 0 else dict(minT=float(rng.uniform(180, 240)) * units.degK, sigma_b=float(rng.uniform(0.4, 0.8)))
+  h = E.hs.HeldSuarezForcing(coords, specs_si, tref, **kw)
+  vs = float(specs_si.nondimensionalize(1e-5 / units.second))
+
+  def hs_state(base):
+    lsp = _rm(rng, grid, 1, 0.05)
+    if base:
+      lsp[0, 0, 0] += math.log(float(h.p0)) * pe._CONSTANT_NORMALIZATION_FACTOR
+    return pe.State(vorticity=J(_rm(rng, grid, nl, vs)), divergence=J(_rm(rng, grid, nl, 0.1 * vs)),
+                    temperature_variation=J(_rm(rng, grid, nl, 5.0)), log_surface_pressure=J(lsp))
+  info = dict(ginfo, boundaries=b.tolist(), tref=tref.tolist(), params={k: str(v_) for k, v_ in kw.items()})
+  _deriv_probe(ctx, E, 'held_suarez.explicit_terms', h.explicit_terms, hs_state(True), hs_state(False), info, kinks=True)
+  ps, dps = J(float(h.p0) * (1 + 0.2 * np.tanh(rng.standard_normal(ns)))), J(float(h.p0) * 0.1 * rng.standard_normal(ns))
+  _deriv_probe(ctx, E, 'held_suarez.equilibrium_temperature', h.equilibrium_temperature, ps, dps, info, kinks=True)
+
+
+def _step_plan(ctx):
+  one = ['bfe', 'cnrk2', 'rk3', 'rk4', 'sil3']
+  stacks = [['exp'], ['diff'], ['exp', 'diff'], []]
+  r = ctx.seed
+  if ctx.quick:
+    return [('dry', one[r % 5], stacks[r % 4], 2), ('moist', 'sil3', ['exp'], 2),
+            (['cloud', 'time', 'moist'][r % 3], one[(r + 2) % 5], stacks[(r + 1) % 4], 1),
+            ('shallow-water', one[(r + 1) % 5], stacks[(r + 2) % 4], 3),
+            (['dry', 'shallow-water', 'moist'][r % 3], 'leapfrog', [['exp', 'ra'], ['ra'], ['ra', 'diff']][r % 3], 2)]
+  plan = [(cls, name, stacks[(i + j + r) % 4], 1 + (i + j) % 3)
+          for i, cls in enumerate(['dry', 'time', 'moist', 'cloud', 'shallow-water']) for j, name in enumerate(one)]
+  plan += [(cls, 'leapfrog', st, 2) for cls in ('dry', 'moist', 'shallow-water') for st in (['exp', 'ra'], ['ra', 'diff'])]
+  return plan
+
+
+def _probes_steps(ctx, E, grid, gname, n):
+  rng, jax, ti = ctx.rng, E.jax, E.ti
+  for ci, (cls, name, stack, k) in enumerate(_step_plan(ctx)):
+    if cls == 'shallow-water':
+      eq, coords, specs, ref, mk, info = _sw_setup(ctx, E, grid, n)
+    else:
+      eq, coords, specs, tref, mk, info = _pe_setup(ctx, E, grid, n, cls)
+    dt = float(rng.choice([0.005, 0.01, 1 / 128]))
+    leap = name == 'leapfrog'
+    filters, fdesc = _filters(E, grid, dt, stack, leap, rng)
+    alpha = float(rng.choice([0.5, 0.6, 1.0]))
+    base = ti.semi_implicit_leapfrog(eq, dt, alpha) if leap else E.INT[name](eq, dt)
+    step = ti.step_with_filters(base, filters)
+
+    def f(u, step=step, k=k):
+      for _ in range(k):
+        u = step(u)
+      return u
+    if leap:
+      x0 = mk()
+      x = (x0, jax.tree_util.tree_map(lambda a, b: a + 0.01 * b, x0, mk(base=False, t=0.0)))
+      v = (mk(base=False), mk(base=False))
+    else:
+      x, v = mk(), mk(base=False)
+    inp = dict(info, grid=gname, integrator=name, filters=fdesc, dt=dt, steps=k, alpha=alpha if leap else None,
+               seed=ctx.seed)
+    for kk in (f'step-class={cls}', f'step-integrator={name}', f'step-filters={"+".join(stack) or "none"}',
+               f'step-count={k}'):
+      ctx.dist[kk] += 1
+    _deriv_probe(ctx, E, f'step:{cls}:{name}', f, x, v, inp)
+
+
+def _grad_close(E, a, b):
+  la, lb = _leaves(E, a), _leaves(E, b)
+  if len(la) != len(lb):
+    return np.inf
+  return max([dinoutil.relerr(x, y) for x, y in zip(la, lb)] + [0.0])
+
+
+def _probes_scan(ctx, E, grid, gname, n):
+  """gradients of nested_checkpoint_scan vs a flat lax.scan; a step with / without jax.checkpoint"""
+  rng, jax, jnp, ti = ctx.rng, E.jax, E.jnp, E.ti
+  J = jnp.asarray
+
+  def compare(key, body, init, xs, nestings, inp):
+    def loss(scan):
+      def l(init_, xs_):
+        carry, out = scan(init_, xs_)
+        return sum(jnp.sum(a ** 2) for a in jax.tree_util.tree_leaves(carry)) + \
+            sum(jnp.sum(jnp.sin(a)) for a in jax.tree_util.tree_leaves(out))
+      return l
+    with ctx.impl(key + ':raises', inp):
+      ref_v, ref_g = jax.value_and_grad(loss(lambda i, x: jax.lax.scan(body, i, x)), argnums=(0, 1))(init, xs)
+      fin = all(np.isfinite(a).all() for a in _leaves(E, ref_g))
+      ctx.expect(fin, key + ':finite', 'gradient of the flat scan is not finite', inp)
+      for ls in nestings:
+        i2 = dict(inp, nested_lengths=list(ls))
+        ctx.case((key, tuple(ls), ctx.seed), nontrivial=len(ls) > 1)
+        ctx.dist[f'scan-nesting-depth={len(ls)}'] += 1
+        v, g = jax.value_and_grad(
+            loss(lambda i, x: ti.nested_checkpoint_scan(body, i, x, nested_lengths=ls)), argnums=(0, 1))(init, xs)
+        ctx.expect(abs(float(v) - float(ref_v)) <= GRAD_TOL * abs(float(ref_v)), key + ':value',
+                   f'nested scan {ls}: loss {float(v)!r} != flat scan {float(ref_v)!r}', i2)
+        err = _grad_close(E, g, ref_g)
+        _stat(ctx, 'scan gradient', err, key)
+        ctx.expect(err <= GRAD_TOL, key + ':gradient',
+                   f'nested scan {ls}: gradient differs from the flat scan by {err:.3e} (relative)', i2)
+        # forward mode through the nested scan
+        tin = jax.tree_util.tree_map(lambda a: J(rng.standard_normal(np.shape(a))), (init, xs))
+        _, t1 = jax.jvp(lambda i, x: ti.nested_checkpoint_scan(body, i, x, nested_lengths=ls), (init, xs), tin)
+        _, t0 = jax.jvp(lambda i, x: jax.lax.scan(body, i, x), (init, xs), tin)
+        err = _grad_close(E, t1, t0)
+        ctx.expect(err <= GRAD_TOL, key + ':tangent',
+                   f'nested scan {ls}: jvp differs from the flat scan by {err:.3e} (relative)', i2)
+
+  # (1) a small nonlinear recurrence with a pytree carry, scanned inputs and stacked outputs
+  A = J(rng.standard_normal((3, 3)) * 0.5)
+
+  def body(c, x):
+    u = jnp.tanh(A @ c['u'] + x['f']) + 0.1 * c['s'] * c['u']
+    s = c['s'] * jnp.cos(x['g']) + jnp.sum(u ** 2)
+    return dict(u=u, s=s), (u[0] * s, jnp.sum(u))
+  length = 12 if ctx.quick else 24
+  init = dict(u=J(rng.standard_normal(3)), s=J(float(rng.uniform(0.5, 1.5))))
+  xs = dict(f=J(rng.standard_normal((length, 3))), g=J(rng.standard_normal(length)))
+  nestings = [(12,), (3, 4), (4, 3), (2, 2, 3), (6, 2), (1, 12), (12, 1)] if ctx.quick else \
+      [(24,), (4, 6), (6, 4), (2, 3, 4), (2, 2, 2, 3), (24, 1), (1, 24), (8, 3), (3, 8), (2, 12)]
+  compare('nested_checkpoint_scan:recurrence', body, init, xs, nestings, dict(length=length, seed=ctx.seed))
+
+  # (2) a real filtered time step as scan body (xs = None is not differentiable input: use a forcing amplitude)
+  eq, coords, specs, ref, mk, info = _sw_setup(ctx, E, grid, 1 if ctx.quick else n)
+  dt = 0.01
+  filters, fdesc = _filters(E, grid, dt, ['exp'], False, rng)
+  step = ti.step_with_filters(E.INT[['cnrk2', 'sil3', 'bfe'][ctx.seed % 3]](eq, dt), filters)
+  pert = mk(base=False)
+
+  def sbody(c, a):
+    c = step(jax.tree_util.tree_map(lambda p, q: p + a * q, c, pert))
+    return c, jnp.sum(c.potential ** 2)
+  amps = J(rng.standard_normal(4) * 1e-3)
+  compare('nested_checkpoint_scan:shallow-water-step', sbody, mk(), amps, [(2, 2)] if ctx.quick else [(2, 2), (4, 1), (1, 4)],
+          dict(info, grid=gname, filters=fdesc, dt=dt, seed=ctx.seed))
+
+  # (3) jax.checkpoint around a complete step does not change value or gradient
+  cls = ['moist', 'dry', 'cloud'][ctx.seed % 3]
+  eq, coords, specs, tref, mk, info = _pe_setup(ctx, E, grid, n, cls)
+  filters, fdesc = _filters(E, grid, dt, ['exp'], False, rng)
+  step = ti.step_with_filters(E.INT[['sil3', 'cnrk2', 'rk3'][ctx.seed % 3]](eq, dt), filters)
+  x = mk()
+  inp = dict(info, grid=gname, filters=fdesc, dt=dt, seed=ctx.seed)
+
+  def loss(stepfn):
+    return lambda u: sum(jnp.sum(a ** 2) for a in jax.tree_util.tree_leaves(stepfn(stepfn(u))))
+  key = f'checkpoint:{cls}'
+  ctx.case((key, ctx.seed), nontrivial=True)
+  with ctx.impl(key + ':raises', inp):
+    v0, g0 = jax.value_and_grad(loss(step))(x)
+    v1, g1 = jax.value_and_grad(loss(jax.checkpoint(step)))(x)
+    ctx.expect(all(np.isfinite(a).all() for a in _leaves(E, g0) + _leaves(E, g1)), key + ':finite',
+               'non-finite gradient of a two-step loss', inp)
+    ctx.expect(abs(float(v0) - float(v1)) <= GRAD_TOL * abs(float(v0)), key + ':value',
+               f'jax.checkpoint changes the value: {float(v0)!r} vs {float(v1)!r}', inp)
+    err = _grad_close(E, g0, g1)
+    _stat(ctx, 'checkpoint gradient', err, key)
+    ctx.expect(err <= GRAD_TOL, key + ':gradient', f'jax.checkpoint changes the gradient by {err:.3e} (relative)', inp)
+
+
 def run(ctx: common.Ctx):
+  import time
   E = _Env()
   ctx.lean('DinoProofs.Properties.C08', 'C08.txt',
            extra_files=['DinoProofs/Lemmas/AD.lean', 'Dino/AD.lean', 'Dino/ADDrv.lean'])
+  print('lean', time.time() - ctx.t0)
   _corr(ctx, E)
+  print('corr', time.time() - ctx.t0)
+  grid, gname, n = _run_grid(ctx, E)
+  _probes_ops(ctx, E, grid, gname, n)
+  print('ops', time.time() - ctx.t0)
+  _probes_steps(ctx, E, grid, gname, n)
+  print('steps', time.time() - ctx.t0)
+  _probes_scan(ctx, E, grid, gname, n)
+  print('scan', time.time() - ctx.t0)
+  for name, (val, key) in sorted(ctx.__dict__.get('c08_stats', {}).items()):
+    ctx.notes.append(f'measured worst {name}: {val:.3e} at {key}')
   if not ctx.quick:
     ctx.leanchecker(['DinoProofs.Properties.C08'])
   return ctx.finish(RULE, NOTE)
